@@ -52,7 +52,7 @@ var propSets = map[string][]string{
 	"C09": {"r3", "more", "ingest", "c20", "proof"},
 	"C10": {"r3", "ingest", "setters", "c20"},
 	"C11": {"r3", "more", "ingest", "proof", "c20"},
-	"C12": {"r3", "more", "c12", "c18", "locks", "ingest", "loops", "spawn", "chan", "registry"},
+	"C12": {"r3", "more", "c12", "c18", "locks", "ingest", "loops", "spawn", "chan", "registry", "proof"},
 	"C13": {"r3", "more", "ingest", "setters", "locks", "registry", "loops", "c17"},
 	"C14": {"r3", "more", "ingest", "chan", "sync", "loops", "registry", "shutdown", "timer"},
 	"C15": {"r3", "more", "ingest", "registry", "locks", "loops", "sync", "shutdown", "chan"},
